@@ -273,7 +273,7 @@ class Parser:
                 self.i = j + 1
                 return ("sizeof", " ".join(x[1] for x in inner))
             return ("sizeof", self.unary())
-        if kind == "op" and v == "(" and self.is_type_start(1):
+        if kind == "op" and v == "(" and (self.is_type_start(1) or self._ptr_cast_ahead()):
             # cast
             j = self._match_paren()
             ty = " ".join(x[1] for x in self.t[self.i + 1:j])
@@ -294,6 +294,15 @@ class Parser:
                 return ("compound", ty)
             return ("cast", ty, self.unary())
         return self.postfix()
+
+    def _ptr_cast_ahead(self):
+        # ( Ident * ... ) : a cast to a pointer of a type we do not know by name
+        if self.peek(1)[0] != "id" or self.peek(2) != ("op", "*"):
+            return False
+        k = 2
+        while self.peek(k) == ("op", "*"):
+            k += 1
+        return self.peek(k) == ("op", ")")
 
     def _match_paren(self):
         depth = 0
